@@ -378,3 +378,26 @@ pub(crate) fn stub_server_public_key(v: &Verifier, b: &PrivateKey) -> Result<Pub
         }
     }
 }
+
+/// C01/C03: on the server the path from the shared secret to the session key is
+/// K = SHA_Interleave(32-byte zero-padded little-endian S), S = (A * v^u)^b mod N — real S, real interleave
+/// (only u is uninterpreted).
+#[kani::proof]
+#[kani::unwind(66)]
+#[kani::stub(crate::srp_internal::calculate_u, stub_u)]
+fn c01_server_s_to_k() {
+    let a = any_valid_public_key();
+    let b = any_valid_public_key();
+    let v: [u8; 32] = kani::any();
+    let pk: [u8; 32] = kani::any();
+    let k = calculate_session_key(&a, &b, &Verifier::from_le_bytes(v), &PrivateKey::from_le_bytes(pk));
+    let u = stub_u(&a, &b);
+    let val = (big(a.as_le_bytes()) * big(&v).modpow(&big(u.as_le_bytes()), &big_n())).modpow(&big(&pk), &big_n());
+    let s = pad32(&val);
+    if low_zeros(&s) < 32 {
+        let expected = spec_interleave(&s);
+        assert!(eq40(k.as_le_bytes(), &expected), "C01: server session key is not SHA_Interleave of the zero-padded 32-byte secret");
+    }
+    kani::cover!(low_zeros(&s) < 32 && s[31] == 0 && s[30] == 0 && s[29] != 0, "secret with two high zero bytes");
+    kani::cover!(low_zeros(&s) == 1, "secret with one low zero byte");
+}
